@@ -18,9 +18,10 @@
      typing judgement and the integer-range predicate are the Coq definitions of Spec/; float(text) never fails on a grammatical number.
      C03_complete_filter_free / C03_exact_filter_free - for queries without filters the headline in full, relative to the spelling relation of
                               Proofs/LexSpell.v: every spelling of every derivable token sequence compiles to the query derived, and nothing else does;
-   What remains unproved: for queries WITH filters, that the lexer cuts EVERY spelling of a derivable token sequence (any blank space, either quote style, every
-   escape form, every number spelling) into that sequence - known for the canonical spelling only; the check renders every generated
-   valid query in every lexical form and requires it to compile to the generating structure. *)
+     C03_complete_spelled   - the same for queries WITH filters, number literals without exponent part (Proofs/LexCompleteF.v);
+   What remains unproved: number spellings with an exponent part (1e3, 1.5E-2) in the lexer half; and that EVERY string of the ABNF that is valid is a
+   spelling in the sense of Proofs/LexSpell.v - a statement about two grammars that no longer involves the model of the library (the converse inclusion is
+   C04_sound).  The check renders every generated valid query in every lexical form, exponents included, and requires it to compile to the generating structure. *)
 From JP Require Import Base.Json Spec.Abnf Spec.Rfc9535Grammar Model.PyFloat.
 
 Theorem C03_oracle_sound_partial : forall s, in_rfc s = true -> rfc_query s.
@@ -106,6 +107,20 @@ Proof.
   destruct (compiles_spelled cfg _ q E) as (t & z' & a' & Ez & HQ & HR). inversion Ez; subst z'. exists q, t, a'. split; [reflexivity|]. split; [|split; assumption].
   vm_compute in E. inversion E. reflexivity.
 Qed.
+
+(* ---- every lexical variant, for every query ----
+   The same for queries WITH filters (Proofs/LexCompleteF.v): operators and keywords with any blanks around them, parentheses anywhere the grammar allows,
+   nested filters and function calls (the lexer's three stacks are threaded through the induction), both quote styles, any escape form.  One restriction:
+   number literals are a sign, digits and an optional fraction (plain t); spellings with an exponent part stay with the correspondence. *)
+From JP Require Import Proofs.LexCompleteF.
+Theorem C03_complete_spelled : forall cfg q t z a', QT cfg q t -> plain t -> forallb is_scalar z = true -> RunT a0 t z a' ->
+  m_compile cfg (36%N :: z) = Ok q.
+Proof. exact spelled_compiles. Qed.
+Print Assumptions C03_complete_spelled.
+
+Theorem C03_accepts_only_spellings : forall cfg q z, m_compile cfg (36%N :: z) = Ok q -> exists t a', QT cfg q t /\ RunT a0 t z a'.
+Proof. intros cfg q z Hc. destruct (compiles_spelled cfg _ q Hc) as (t & z' & a' & E & HQ & HR). inversion E; subst z'. exists t, a'. split; assumption. Qed.
+Print Assumptions C03_accepts_only_spellings.
 
 (* the lexer's regular expressions and ESCAPES in the model are the ones REGENERATED from lex.py on this run *)
 From JP Require Import Proofs.TieLex Gen.LexConst Model.Lex.
